@@ -214,5 +214,14 @@ CHECKS["C12"] = dict(
     "accuracy off the grid (log1p/exp) is not decided.",
     technique="TLA+ exact semiring model (laws checked by TLC) used as pointwise oracle for the real semirings")
 
+CHECKS["C32"] = dict(
+    category="exploration",
+    text="select_weighted/5, select_weighted/4, select_uniform/4 on lists of length 1-6 with integer weights (equal elements "
+         "included), plus pairs of calls with the same identifier (must make the same choice) and different identifiers "
+         "(independent): the probability of every (Value, Rest) answer reported by the real library is compared with the "
+         "documented distribution computed exactly by TLC (SelectA.tla).",
+    design_ref="DESIGN.md §5 C32", note="Trusted: TLC integer arithmetic, answer-name rendering.",
+    technique="TLA+ definition of the documented distribution evaluated by TLC, compared with the real library's answers")
+
 NOT_YET = "check not built yet in this round (planned in DESIGN.md §5); not claimed"
 NOT_APPLICABLE = {}
